@@ -54,6 +54,10 @@ theorem runners (types votes : List Nat) (corr : List Rat) (iters nAssign : Nat)
   exact ⟨h1, h2, h3, h4, h5, fun a ha => (columns_types_mem types votes corr a).1 (h6 a ha),
     h7, h8⟩
 
+/-- the shared hypotheses are satisfiable together -/
+example : ValidOrder (columns [7, 5, 9] [2, 3, 1] [1, 2, 1 / 2]).1 [1, 0, 2] ∧
+    [2, 3, 1].length = [7, 5, 9].length ∧ [2, 3, 1].sum = 6 := by decide +kernel
+
 example : (chooseCell [7, 5, 9] [2, 3, 1] [1, 2, 1 / 2] 6 3 [1, 0, 2]).toOption.map
     (fun c => keepRunners c.runners) = some ([7, 9], [1 / 2, 1 / 2], [1 / 3, 1 / 6]) := by decide +kernel
 
